@@ -29,8 +29,6 @@ static uint32_t g_startID = 0, g_numIDs = 0;
 extern "C" uint32_t vf_stub_ReserveIDs(uint32_t n) {
   uint32_t r = vf_nondet_u32();
   vf_assume(r < 1000000 && n < 1000000);
-  g_startID = r;
-  g_numIDs = n;
   return r;
 }
 // Handoff contract (obligations handoff*): instead of ending the success path
@@ -58,19 +56,22 @@ extern "C" void vf_stub_CreateHalfedges(Manifold::Impl* self, const Vec<ivec3>* 
   // export and Transform then treat property slots 0..2 as a vector) when
   // there ARE three property slots
   // (ReserveIDs is a one-line atomic fetch_add that clang inlines into the
-  // constructor, so the ids are read back from the relation map itself)
-  size_t nRel = 0;
-  for (const auto& kv : self->meshRelation_.meshIDtransform) {
-    nRel++;
-    if (kv.second.hasNormals) VF_ASSERT(nP >= 3);
-  }
-  VF_ASSERT(nRel >= 1 && nRel <= 2);
+  // constructor; the harness sets the id counter and records it)
+  VF_ASSERT(g_numIDs >= 1 && g_numIDs <= 2);
+  for (uint32_t i = 0; i < 2; i++)
+    if (i < g_numIDs) {
+      auto it = self->meshRelation_.meshIDtransform.find((int)(g_startID + i));
+      VF_ASSERT(it != self->meshRelation_.meshIDtransform.end());
+      if (it != self->meshRelation_.meshIDtransform.end() && it->second.hasNormals) VF_ASSERT(nP >= 3);
+    }
   for (size_t t = 0; t < nT && t < 4; t++) {
     const int id = self->meshRelation_.triRef[t].meshID;
-    VF_ASSERT(self->meshRelation_.meshIDtransform.find(id) != self->meshRelation_.meshIDtransform.end());
+    VF_ASSERT(id >= (int)g_startID && id < (int)(g_startID + g_numIDs));
   }
-  // tangents: none, or one per halfedge of the INPUT triangle list
-  VF_ASSERT(self->halfedgeTangent_.size() == 0 || self->halfedgeTangent_.size() % 3 == 0);
+  // tangents: none, or one per halfedge of the KEPT triangles (degenerate
+  // input triangles are dropped by the ladder; GatherFaces/ReindexFace index
+  // the tangents by kept-triangle number)
+  VF_ASSERT(self->halfedgeTangent_.size() == 0 || self->halfedgeTangent_.size() == 3 * nT);
 #ifdef VF_WITNESS
   vf_witness();
 #endif
@@ -125,6 +126,9 @@ static void ingest() {
   sym<uint8_t, 2>(m.runFlags);
   sym<I, 4>(m.faceID);
   sym<P, 48>(m.halfedgeTangent);
+#ifdef VF_CONST_TANGENTS  // the tangent VALUES are irrelevant to the obligation (only their count is)
+  for (unsigned i = 0; i < 48; i++) m.halfedgeTangent.data()[i] = P(1);
+#endif
   m.tolerance = nd<P>();
 #ifdef VF_EXCLUDE_KNOWN
   VF_EXCLUDE_KNOWN
@@ -134,6 +138,8 @@ static void ingest() {
     uint32_t c = vf_nondet_u32();
     vf_assume(c < 1000000);
     Manifold::Impl::meshIDCounter_.store(c, std::memory_order_relaxed);
+    g_startID = c;
+    g_numIDs = m.runOriginalID.size() > 1 ? (uint32_t)m.runOriginalID.size() : 1;
   }
   Manifold::Impl impl(m, nullptr);
   // reached only on the early returns (the success path ends at the cut):
